@@ -97,7 +97,7 @@ def check_rounded(st, V, N, D, mode):
                 return False, 'path does not determine %s' % u
             want = padd(cand, pconst(inc))
             d = st.norm(padd(V, want, -1))
-            if pis_const(d) == 0:
+            if pis_const(d) == 0 or (pis_const(d) is None and st.sign(d) == ZERO):
                 return True, 'floor quotient %s, increment %d' % (st.atoms.pstr(cand), inc)
             return False, 'returns %s but RoundSpec(%s) = %s + %d' % (st.atoms.pstr(V), mode, st.atoms.pstr(cand), inc)
         msgs.append('cand %s: rem sign %s, rem-div sign %s' % (st.atoms.pstr(cand), sorted(s0), sorted(s1)))
@@ -210,3 +210,88 @@ def caller_summaries(db):
         CORE + 'i128_div_rounded': summ_i128_div_rounded,
         default_mode_fn(db)['id']: summ_default_mode,
     }
+
+
+# ----------------------------------------------------------------------------- contract U (assumed, not proved)
+def _deref(I, st, v):
+    from .models import deref
+    return deref(I, st, v)
+
+
+def summ_u128_mul_u128(I, st, args, fid):
+    """(U) u128_mul_u128(x, y) = (hi, lo) with hi*2^128 + lo = x*y"""
+    x, y = args
+    W = pmul(st.norm(x.p), st.norm(y.p))
+    T = I.tdiv_atom(st, W, pconst(2**128))
+    hi = I.mk(st, 'u128', T)
+    lo = I.mk(st, 'u128', padd(W, pscale(T, 2**128), -1), 0, 2**128 - 1)
+    return Agg('tuple', None, (hi, lo))
+
+
+def summ_u256_idiv_u128(I, st, args, fid):
+    """(U) u256_idiv_u128(&mut xh, &mut xl, y): (xh, xl) := floor((xh*2^128 + xl) / y), returns the remainder (< y); y > 0"""
+    rh, rl, y = args
+    xh, xl = _deref(I, st, rh), _deref(I, st, rl)
+    if not st.sign(y.p) <= POS:
+        raise Stop('contract U: divisor of u256_idiv_u128 not known positive')
+    W = st.norm(padd(pscale(xh.p, 2**128), xl.p))
+    Q = I.tdiv_atom(st, W, st.norm(y.p))
+    R = st.norm(padd(W, pmul(Q, st.norm(y.p)), -1))
+    H = I.tdiv_atom(st, st.norm(Q), pconst(2**128))
+    nh = I.mk(st, 'u128', H)
+    nl = I.mk(st, 'u128', padd(Q, pscale(H, 2**128), -1), 0, 2**128 - 1)
+    for ref, val in ((rh, nh), (rl, nl)):
+        tf = I.frame_of(st, ref.frame)
+        tf.L[ref.local] = I.updated(st, tf, tf.L.get(ref.local), list(ref.proj), val)
+    return I.mk(st, 'u128', R, 0, None)
+
+
+def u_summaries():
+    return {'fpdec_core::u128_mul_u128': summ_u128_mul_u128, 'fpdec_core::u256_idiv_u128': summ_u256_idiv_u128}
+
+
+def summ_wide_rounded(kind):
+    """(W) i128_shifted_div_rounded(x, p, y, m) / i128_mul_div_ten_pow_rounded(x, y, p, m):
+    Some(RoundSpec(m, N/D)) or None when the rounded quotient does not fit (recorded as note 'wide-overflow')"""
+    def f(I, st, args, fid):
+        if kind == 'shifted':
+            x, p, y, m = args
+            plo, phi = st.itv(p)
+            if plo != phi:
+                raise Stop('symbolic shift')
+            N, D = pscale(x.p, 10 ** plo), y.p
+        else:
+            x, y, p, m = args
+            plo, phi = st.itv(p)
+            if plo != phi:
+                raise Stop('symbolic shift')
+            N, D = pmul(st.norm(x.p), st.norm(y.p)), pconst(10 ** plo)
+        sd = st.decide(D, [NEG, ZERO, POS])
+        if sd == 1:
+            raise PanicExc('DivisionByZero', {'fn': fid})
+        if sd == 0:
+            N, D = pneg(N), pneg(D)
+        mk = mode_key(I, m)
+        a = rnd_atom(I, st, N, D, mk)
+        lo, hi = st.range_of(a)
+        fits = lo is not None and hi is not None and lo >= -(2**127) and hi <= 2**127 - 1
+        never = (hi is not None and hi < -(2**127)) or (lo is not None and lo > 2**127 - 1)
+        if fits:
+            return some(I.mk(st, 'i128', a))
+        if never:
+            st.note(('wide-overflow', pfreeze(st.norm(N)), pfreeze(st.norm(D)), mk))
+            return none()
+        k = st.choose(2)
+        if k == 0:
+            st.assume_in_range(a, -(2**127), 2**127 - 1)
+            return some(I.mk(st, 'i128', a))
+        st.note(('wide-overflow', pfreeze(st.norm(N)), pfreeze(st.norm(D)), mk))
+        return none()
+    return f
+
+
+def all_caller_summaries(db):
+    s = caller_summaries(db)
+    s[CORE + 'i128_shifted_div_rounded'] = summ_wide_rounded('shifted')
+    s[CORE + 'i128_mul_div_ten_pow_rounded'] = summ_wide_rounded('muldiv')
+    return s
